@@ -61,4 +61,12 @@ def groAtomLine (p : Nat) (resSeq : Int) (resName atomName : List Char) (serial 
   fmtInt 5 (if 100000 ≤ resSeq then resSeq % 100000 else resSeq) ++ padRight 5 resName ++ padLeft 5 atomName ++
   fmtInt 5 ((serial % 100000 : Nat) : Int) ++ groField p x ++ groField p y ++ groField p z
 
+/-- the CRYST1 record of a PDB file: `"CRYST1{:9.3f}{:9.3f}{:9.3f}{:7.2f}{:7.2f}{:7.2f} P 1           1 "` (lengths in angstrom, angles in degrees) -/
+def cryst1Line (a b c al be ga : Rat) : List Char :=
+  ['C', 'R', 'Y', 'S', 'T', '1'] ++ fmtFixed 9 3 a ++ fmtFixed 9 3 b ++ fmtFixed 9 3 c ++ fmtFixed 7 2 al ++ fmtFixed 7 2 be ++ fmtFixed 7 2 ga ++
+  [' ', 'P', ' ', '1'] ++ List.replicate 11 ' ' ++ ['1', ' ']
+
+/-- the box line of a .gro frame: nine `'%10.5f'` fields (v1x v2y v3z v1y v1z v2x v2z v3x v3y, nanometres) -/
+def groBoxLine (vs : List Rat) : List Char := (vs.map (fmtFixed 10 5)).flatten
+
 end MdVerif.Txt
